@@ -97,3 +97,45 @@ pub fn hex(v: u64) -> String {
 pub fn unhex(s: &str) -> u64 {
     u64::from_str_radix(s, 16).expect("bad hex u64")
 }
+
+/// momtrop prints debug output with println! (print_debug_info); keep our own
+/// protocol lines apart: fd 1 goes to /dev/null, the returned file is the
+/// original stdout.
+pub fn silence_stdout() -> std::fs::File {
+    use std::os::unix::io::FromRawFd;
+    unsafe {
+        let saved = libc::dup(1);
+        let null = libc::open(b"/dev/null\0".as_ptr() as *const libc::c_char, libc::O_WRONLY);
+        if saved < 0 || null < 0 {
+            eprintln!("HARNESS: cannot redirect stdout");
+            std::process::exit(2);
+        }
+        libc::dup2(null, 1);
+        libc::close(null);
+        std::fs::File::from_raw_fd(saved)
+    }
+}
+
+static OUT: std::sync::OnceLock<std::sync::Mutex<std::fs::File>> = std::sync::OnceLock::new();
+
+pub fn init_out() {
+    let f = silence_stdout();
+    let _ = OUT.set(std::sync::Mutex::new(f));
+}
+
+/// write one protocol line to the real stdout
+pub fn say(line: &str) {
+    use std::io::Write;
+    match OUT.get() {
+        Some(m) => {
+            let mut f = m.lock().unwrap();
+            let _ = writeln!(f, "{}", line);
+        }
+        None => println!("{}", line),
+    }
+}
+
+#[macro_export]
+macro_rules! say {
+    ($($arg:tt)*) => { $crate::util::say(&format!($($arg)*)) };
+}
